@@ -1178,9 +1178,18 @@ def rule_call_forwards(ctx: Ctx, rid="C09.CALL-FORWARDS", publish=False):
             continue
         n += 1
         v = p.exit_node.value
-        direct = isinstance(v, ast.Call) and dotted(v.func) and dotted(v.func).startswith("self.") and not v.args and \
+        # locals that merely hold a pure load of an evaluator attribute (fn = self.run_experiment)
+        loads = {}
+        for s_ in p.stmts():
+            if isinstance(s_, ast.Assign) and len(s_.targets) == 1 and isinstance(s_.targets[0], ast.Name) \
+                    and isinstance(s_.value, ast.Attribute) and dotted(s_.value.value) == "self":
+                loads[s_.targets[0].id] = s_
+        callee = dotted(v.func) if isinstance(v, ast.Call) else None
+        via_local = callee in loads
+        direct = isinstance(v, ast.Call) and callee and (callee.startswith("self.") or via_local) and not v.args and \
             len(v.keywords) == 1 and v.keywords[0].arg is None and dotted(v.keywords[0].value) == kw
-        others = [s for s in p.stmts() if s is not p.exit_node and not (isinstance(s, ast.Expr) and isinstance(s.value, ast.Constant))]
+        others = [s for s in p.stmts() if s is not p.exit_node and not (isinstance(s, ast.Expr) and isinstance(s.value, ast.Constant))
+                  and s not in loads.values()]
         ctx.rep.check(direct and not others, rid, f"{EV}:ExperimentEvaluator.__call__[{norm(p.exit_node)[:50]}]",
                       f"returns {norm(v)[:50]}: the installed function applied to the caller's fields, nothing else" if direct and not others else
                       f"a call can return `{norm(v)[:60] if v is not None else None}` after {len(others)} other statement(s) "
